@@ -249,6 +249,9 @@ export async function run(ctx) {
       ["nonnullable", (n) => `NonNullable<${n}>`],
       ["array-of", (n) => `${n}[]`],
       ["intersect", (n) => `${n} & { extra: 1 }`],
+      ["union-with-object", (n) => `${n} | { kind: "x"; a: 1 }`],
+      ["union-of-tagged", (n) => `(${n} & { kind: "n" }) | { kind: "x" }`],
+      ["generic-grow", (n) => `{ w: W<${n}> }`],
     ];
     let k = 0;
     for (const [cn, c] of containers)
@@ -256,7 +259,8 @@ export async function run(ctx) {
         for (const mutual of [false, true]) {
           k++;
           if (k % ctx.of !== ctx.shard) continue;
-          const text = mutual ? `type N = ${c("M")};\ntype M = N | null;\nexport const P = parse.buildParsers<{ X: ${o("N")} }>();\n` : `type N = ${c("N")};\nexport const P = parse.buildParsers<{ X: ${o("N")} }>();\n`;
+          const pre = "type W<T> = { v: T; next?: W<T[]> | W<{ t: T }> };\n";
+          const text = (on === "generic-grow" ? pre : "") + (mutual ? `type N = ${c("M")};\ntype M = N | null;\nexport const P = parse.buildParsers<{ X: ${o("N")} }>();\n` : `type N = ${c("N")};\nexport const P = parse.buildParsers<{ X: ${o("N")} }>();\n`);
           ctx.count("recursion-grid");
           await judge(ctx, { files: { "entry.ts": text }, settings: { string_formats: [], number_formats: [] } }, `grid:${cn}/${on}${mutual ? "/mutual" : ""}`);
         }
